@@ -86,3 +86,76 @@ func TLSClientConfig(useTLS bool, skipTLS bool) *tls.Config { return nil }
 func TLSConfig(tlsConfig *tls.Config, useTLS bool, certFile, keyFile string) (*tls.Config, error) {
 	return nil, nil
 }
+
+// ---- listeners (used by the in-process meta service: raft layer and HTTP)
+
+type memAddr string
+
+func (a memAddr) Network() string { return "tcp" }
+func (a memAddr) String() string  { return string(a) }
+
+// Listener is an in-memory net.Listener registered under an address.
+type Listener struct {
+	addr   string
+	ch     chan net.Conn
+	once   sync.Once
+	closed chan struct{}
+}
+
+// Listen registers an in-memory listener at addr. With stripHeader set the first
+// byte a client writes (the mux header of the repository's tcp.Mux) is consumed
+// before the connection is handed to Accept.
+func Listen(addr string, stripHeader bool) *Listener {
+	l := &Listener{addr: addr, ch: make(chan net.Conn), closed: make(chan struct{})}
+	Register(addr, func(c net.Conn) {
+		if stripHeader {
+			var b [1]byte
+			if _, err := c.Read(b[:]); err != nil {
+				c.Close()
+				return
+			}
+		}
+		select {
+		case l.ch <- c:
+		case <-l.closed:
+			c.Close()
+		}
+	})
+	return l
+}
+
+func (l *Listener) Accept() (net.Conn, error) {
+	select {
+	case c := <-l.ch:
+		return c, nil
+	case <-l.closed:
+		return nil, fmt.Errorf("accept tcp %s: use of closed network connection", l.addr)
+	}
+}
+
+func (l *Listener) Close() error {
+	l.once.Do(func() {
+		close(l.closed)
+		mu.Lock()
+		delete(handlers, l.addr)
+		mu.Unlock()
+	})
+	return nil
+}
+
+func (l *Listener) Addr() net.Addr { return memAddr(l.addr) }
+
+// Dial connects to the in-memory listener at address (for HTTP transports).
+func Dial(address string) (net.Conn, error) { return dial(address) }
+
+// CloseConnsOf closes every connection whose server side was accepted at addr
+// or that was dialled to addr (a node that stops loses its connections).
+func CloseAll() {
+	mu.Lock()
+	cs := conns
+	conns = nil
+	mu.Unlock()
+	for _, c := range cs {
+		c.Close()
+	}
+}
